@@ -39,6 +39,9 @@ CHECKS = {
  "C19": ("exploration", "exactly-once-or-absent / no-cross-delivery history oracle over keyed out-of-band payloads (sent book vs handler invocations), with the C01 content oracle and the wire decoder's FEC group check running on the same traffic",
    "Held on ~10^5 out-of-band sends and ~5*10^4 checked deliveries per quick run, across ciphers, FEC ratios, session counts and loss profiles.",
    "payloads shorter than 12 bytes are identified by (session, direction, length) only", "DESIGN.md §3 C19"),
+ "C05": ("exploration", "seeded structure-aware hostile-input generation into the raw core, the raw FEC decoder and live sessions (simnet + real UDP) under the race detector/checkptr; process-survival, structural-bound and heap-growth monitors; content oracle on the concurrent legitimate transfer",
+   "~1.5*10^6 injections per quick run; a crash is attributed to the last logged case; bounds are asserted after every injection.",
+   "generators are seeded and structure-aware, not coverage-guided", "DESIGN.md §3 C05"),
  "C13": ("exploration", "virtual-time trace monitor: return time and error class of every blocked caller recorded at the API boundary and compared with a reference model of deadline/data/close/error semantics at bubble quiescence after each scripted stimulus",
    "Thousands of scripted interleavings of blocked Read/Write/Accept callers with deadline changes, arrivals, Close and socket errors, judged to the exact virtual millisecond; held on the scripts executed.",
    "synctest virtual time; Go scheduler order inside one instant", "DESIGN.md §3 C13"),
